@@ -648,6 +648,26 @@ fn one_vs_all_and_confusion() -> Result<Fp, String> {
     Ok(fp)
 }
 
+/// the documented multi-class recipe: one_vs_all -> one probability SVM per label -> MultiClassModel.
+/// Queries include far-away points where several members saturate to the same probability.
+fn multiclass_svm_one_vs_all() -> Result<Fp, String> {
+    use linfa::composing::MultiClassModel;
+    use linfa_svm::Svm;
+    let (x, y) = blobs(90, 2, 3, 49);
+    let ds = Dataset::new(x.clone(), y);
+    let params = Svm::<f64, Pr>::params().gaussian_kernel(3.0);
+    let mut members = Vec::new();
+    for (l, d) in ds.one_vs_all().map_err(e)? {
+        members.push((l, params.fit(&d).map_err(e)?));
+    }
+    let model = members.into_iter().collect::<MultiClassModel<_, _>>();
+    let q = ndarray::array![[1e3, 1e3], [-1e3, 2e3], [0.0, 0.0], [50.0, -50.0], [2.0, 2.0], [-3.0, 4.5]];
+    let mut fp = Fp::new();
+    bu(&mut fp, model.predict(&q).as_slice().unwrap());
+    bu(&mut fp, model.predict(&x).as_slice().unwrap());
+    Ok(fp)
+}
+
 pub fn registry() -> Vec<Entry> {
     macro_rules! ent {
         ($($f:ident),* $(,)?) => { vec![$(Entry { name: stringify!($f), run: $f }),*] };
@@ -662,6 +682,6 @@ pub fn registry() -> Vec<Entry> {
         tree_blobs, tree_ties, tree_ties_strings_weighted,
         gaussian_nb_ties, gaussian_nb_blobs, multinomial_nb_ties, ftrl_default_seed,
         pca, random_projections, diffusion_map, fast_ica_seeded,
-        scalers, whiteners, vectorizers, platt, one_vs_all_and_confusion,
+        scalers, whiteners, vectorizers, platt, one_vs_all_and_confusion, multiclass_svm_one_vs_all,
     ]
 }
